@@ -33,6 +33,12 @@ chk("C03",
     "Coq proof (case analysis, induction over the read loop, injectivity of hex value) + regenerated guards tie + vm_compute correspondence",
     "DESIGN.md §4 C03")
 
+chk("C13",
+    "Coq theorems over an executable small-step model of the (repaired) lock, one step per critical section, for every label sequence (= every schedule at mutex/condition granularity, any number of threads): exclusion (ghost hold tokens), re-entrancy, refusal of the opposite state, rejection of non-holder releases, no lost wake-up (a free lock has no sleeper), no deadlock (a sleeper always has a non-sleeping holder whose release succeeds), and for timed acquires on a virtual clock: the deadline is fixed at the call, never moves, and the first test after it returns. The pre-fix algorithm's lost wake-up is refuted in Coq (Regress/UpDownOld.v). Tie: guards and synchronisation statements re-translated each run (T1); the real lock runs under a deterministic scheduler over all schedules of small bracketed programs and every observed trace of critical sections is replayed in the model in Coq (T2).",
+    "Coq kernel+VM; translator fragment; deterministic scheduler and its cooperative Lock/Condition (no spurious wake-ups); atomicity of statements inside a critical section; virtual clock",
+    "Coq proof (invariants by induction over all step sequences, ghost tokens) + regenerated guards tie + vm_compute replay of scheduler traces",
+    "DESIGN.md §4 C13")
+
 ALL = [f"C{i:02d}" for i in range(1, 21)]
 NA_REASON = "check not yet built in this revision (planned: see DESIGN.md §7); nothing is claimed for it"
 
